@@ -19,6 +19,25 @@ CHECKS = {
         "level_note": "Interop cases are restricted to what crypto/tls can use (X25519, valid DNS public name, at least one supported suite); the other cases are codec-only.",
         "assumptions": ["crypto/tls's ECH config validation is the reference for 'accepts'"],
     },
+    "C12": {
+        "stages": [rapid_stage("C12", 2500, 50000),
+                   {"name": "corpus", "run": "^FuzzDecodeMessage$", "shards": {"quick": 1, "thorough": 1}, "timeout": {"quick": 120, "thorough": 120}},
+                   {"name": "fuzz", "gofuzz": "^FuzzDecodeMessage$", "fuzztime": {"thorough": "240s"}, "tiers": ["thorough"], "timeout": {"thorough": 900}}],
+        "crash_is_violation": True,
+        "design_ref": "DESIGN.md 5 C12",
+        "technique": "grammar-based adversarial generation (rapid) of compression-pointer graphs and edited valid packets, native coverage-guided fuzzing (thorough), watchdog + allocation bound + type-table oracle, decoded messages driven through the resolver over a loopback DoH server",
+        "level_text": "Randomised and coverage-guided search over DNS byte strings with a deterministic cost bound (allocations, decoded name volume) and a 60 s watchdog for non-termination; decoded messages are additionally fed to Resolve/Targets.",
+        "level_note": "The allocation bound (1 MiB + 2 KiB per input byte) is the harness's reading of 'small polynomial'.",
+        "assumptions": ["the fake DoH server answers every query with the same body"],
+    },
+    "C13": {
+        "stages": [rapid_stage("C13", 2500, 30000)],
+        "design_ref": "DESIGN.md 5 C13",
+        "technique": "property-based testing (rapid): round trip plus two-way differential against golang.org/x/net/dns/dnsmessage (parser on our bytes, our decoder on Builder packets with compression)",
+        "level_text": "Randomised exploration of messages in both directions with an independent RFC 1035/9460 codec as the oracle; AddPadding checked with a metamorphic relation (only the padding option may change).",
+        "level_note": "Names with dots inside labels, trailing dots and non-canonical IP lengths are not generated (outside the package's documented name/IP conventions).",
+        "assumptions": ["x/net dnsmessage v0.59.0 is correct for the generated packets"],
+    },
     "C02": {
         "stages": [rapid_stage("C02", 40, 60, tto=3400)],
         "design_ref": "DESIGN.md 4 C02",
